@@ -63,10 +63,28 @@ def _has_ite(t):
     return False
 
 
+def _mentions(t, ids):
+    todo, seen = [t], set()
+    while todo:
+        a = todo.pop()
+        if a.get_id() in seen:
+            continue
+        seen.add(a.get_id())
+        if a.get_id() in ids:
+            return True
+        if z3.is_app(a):
+            todo.extend(a.children())
+    return False
+
+
 def FA(vs, body, patterns=None, **kw):
-    """ForAll that drops the patterns z3 refuses (e.g. a heap term containing an if-then-else)"""
+    """ForAll that drops the patterns z3 refuses (e.g. a heap term containing an if-then-else, or a pattern
+    that mentions none of the bound variables, as happens when a ghost predicate is a constant)"""
     if patterns:
-        patterns = [p_ for p_ in patterns if not _has_ite(p_)]
+        vl = vs if isinstance(vs, (list, tuple)) else [vs]
+        ids = {v.get_id() for v in vl}
+        patterns = [p_ for p_ in patterns
+                    if not _has_ite(p_) and (isinstance(p_, z3.PatternRef) or _mentions(p_, ids))]
     if patterns:
         try:
             return z3.ForAll(vs, body, patterns=patterns, **kw)
